@@ -119,14 +119,26 @@ fn exchange(kind: ClientKind, rt: &tokio::runtime::Runtime, scheme: &str, path: 
     let l2 = l.clone();
     let done = Arc::new(std::sync::atomic::AtomicBool::new(false));
     let done2 = done.clone();
-    let server = std::thread::spawn(move || l2.accept_until(Duration::from_secs(20), &done2).map(|s| serve_plain(s, &script)));
+    let server = std::thread::spawn(move || {
+        let first = l2.accept_until(Duration::from_secs(20), &done2).map(|s| serve_plain(s, &script));
+        // the script is for ONE exchange; whatever else connects before the client has returned is counted and closed
+        // at once (a client that tried again would otherwise wait for an answer nobody is going to give)
+        let mut extra = 0usize;
+        if first.is_some() {
+            while let Some(s) = l2.accept_until(Duration::from_secs(60), &done2) {
+                extra += 1;
+                drop(s);
+            }
+        }
+        (first, extra)
+    });
     let uri = format!("{}://127.0.0.1:{}{}", scheme, port, path);
     let t0 = Instant::now();
     let result = send(kind, rt, &uri, cfg, req);
     let took = t0.elapsed();
     done.store(true, std::sync::atomic::Ordering::SeqCst);
-    let ex = server.join().ok().flatten();
-    let extra = l.pending();
+    let (ex, extra_seen) = server.join().unwrap_or((None, 0));
+    let extra = extra_seen + l.pending();
     (result, ex, extra, port, took)
 }
 
@@ -182,7 +194,7 @@ pub fn run(ctx: &Ctx) -> ! {
     let mut rep = Report::new(
         ctx,
         "fault_enumeration",
-        "both clients (blocking ureq; async reqwest on a tokio runtime) against a hand-written loopback HTTP/1.1 peer. Request side: requests x payload {none, 1 B, 70 000 B, 70 000 B from a blocking source that reports Interrupted three times (, 3 MiB from a fragmenting source)} x client configuration {none, 1-3 custom headers incl. user-agent override, basic auth with 4 credential shapes} x target path {/, /printers/x, /a%20b?q=1&r=2, /printers/jdoe@corp, /p?user=a@b} x scheme {http, ipp}; and target shapes {ipp, http} x host {127.0.0.1, localhost} x user-info(4) x path(7) x query(5) (with '@', ':' and '/' in path and query) x configuration {plain, basic_auth, custom header, Authorization header}: request target, Host, one connection -> exactly one connection, POST, exact target, Host, content-type, headers, Basic credentials, body = request + payload (decoded by R1). A request object serialised once (to_bytes), then changed (header fields, attributes, payload), then sent must go out in its current state. Response side: responses x trailing data {none, 3 B, 70 000 B} x framing {content-length, chunked, close-delimited} x write plan {one write, one byte per write, EVERY two-piece split}. Huge bodies: a response document and a request payload of 256 MiB + 4097 (1 GiB + 4097) bytes streamed from a pattern generator and verified on the fly, under each framing. Failures: every HTTP status 400-599 with and without an IPP body; connection cut after EVERY offset of header+attributes under each framing and inside the HTTP head; stalled server with and without request_timeout. History: two sequential sends through one client value with the first exchange ending in 8 different ways (ok, 500, 404 with IPP body, cut in attributes, cut in head, chunked, close-delimited, IPP error status): the second must be one fresh POST with its own response. Concurrency: N = 2, 3 (4) senders through one client, the peer collects all N requests and answers in EVERY one of the N! orders. distinct = exchange script; non-trivial = exchange with a fault, fragmentation or non-default configuration",
+        "both clients (blocking ureq; async reqwest on a tokio runtime) against a hand-written loopback HTTP/1.1 peer. Request side: requests x payload {none, 1 B, 70 000 B, 70 000 B from a blocking source that reports Interrupted three times (, 3 MiB from a fragmenting source)} x client configuration {none, 1-3 custom headers incl. user-agent override, basic auth with 4 credential shapes} x target path {/, /printers/x, /a%20b?q=1&r=2, /printers/jdoe@corp, /p?user=a@b} x scheme {http, ipp}; and target shapes {ipp, http} x host {127.0.0.1, localhost} x user-info(4) x path(7) x query(5) (with '@', ':' and '/' in path and query) x configuration {plain, basic_auth, custom header, Authorization header}: request target, Host, one connection -> exactly one connection, POST, exact target, Host, content-type, headers, Basic credentials, body = request + payload (decoded by R1). A request object serialised once (to_bytes), then changed (header fields, attributes, payload), then sent must go out in its current state. Response side: responses x trailing data {none, 3 B, 70 000 B} x framing {content-length, chunked, close-delimited} x write plan {one write, one byte per write, EVERY two-piece split}. Resets: the connection reset (RST) after 64 request bytes / after the whole request with later connections served normally - no second POST, and an error. Huge bodies: a response document and a request payload of 256 MiB + 4097 (1 GiB + 4097) bytes streamed from a pattern generator and verified on the fly, under each framing. Failures: every HTTP status 400-599 with and without an IPP body; connection cut after EVERY offset of header+attributes under each framing and inside the HTTP head; stalled server with and without request_timeout. History: two sequential sends through one client value with the first exchange ending in 8 different ways (ok, 500, 404 with IPP body, cut in attributes, cut in head, chunked, close-delimited, IPP error status): the second must be one fresh POST with its own response. Concurrency: N = 2, 3 (4) senders through one client, the peer collects all N requests and answers in EVERY one of the N! orders. distinct = exchange script; non-trivial = exchange with a fault, fragmentation or non-default configuration",
     );
     rep.assume("interleavings inside hyper / tokio / ureq are not under a controlled scheduler; send(&self) builds a fresh agent and connection per call, so the only cross-request channel is the peer's answer order, which is enumerated");
     rep.assume("verdicts depend only on outcome classes that are stable under TCP coalescing");
@@ -431,7 +443,10 @@ pub fn run(ctx: &Ctx) -> ! {
         st.states.insert(idx | 3 << 40);
         st.nontrivial.insert(idx | 3 << 40);
         let script = Script { status, ..Script::ok(body) };
-        let (result, _, _, _, _) = exchange(kind, rt, "http", "/ipp", &Config::default(), build_ipp(&req0), script);
+        let (result, _, extra, _, _) = exchange(kind, rt, "http", "/ipp", &Config::default(), build_ipp(&req0), script);
+        if extra > 0 {
+            st.violate(format!("{}:second-connection-after-http-error", kind.name()), format!("{}: {} further connection(s): a request is POSTed exactly once", case, extra), case.clone());
+        }
         match result {
             Err(e) if !e.starts_with("PANIC") => st.outcome("http-error-is-error"),
             Err(e) => st.violate(format!("{}:panic", kind.name()), format!("{}: {}", case, e), case.clone()),
@@ -480,7 +495,10 @@ pub fn run(ctx: &Ctx) -> ! {
         st.states.insert(idx | 4 << 40);
         st.nontrivial.insert(idx | 4 << 40);
         let script = Script { framing: f, cut_after: cut, cut_in_head: cut_head, ..Script::ok(body) };
-        let (result, _, _, _, _) = exchange(kind, rt, "http", "/ipp", &Config::default(), build_ipp(&req0), script);
+        let (result, _, extra, _, _) = exchange(kind, rt, "http", "/ipp", &Config::default(), build_ipp(&req0), script);
+        if extra > 0 {
+            st.violate(format!("{}:second-connection-after-cut", kind.name()), format!("{}: {} further connection(s): a request is POSTed exactly once", case, extra), case.clone());
+        }
         match result {
             Err(e) if !e.starts_with("PANIC") => st.outcome("cut-is-error"),
             Err(e) => st.violate(format!("{}:panic", kind.name()), format!("{}: {}", case, e), case.clone()),
@@ -498,6 +516,80 @@ pub fn run(ctx: &Ctx) -> ! {
         s.merge(p.0);
     }
     rep.section("connection-cuts", s);
+    eprintln!("  elapsed {:?}", rep.start.elapsed());
+
+    // ---------------- (4') resets: the connection is RESET (TCP RST) after 64 request bytes / after the whole request;
+    // every later connection would be served normally. Exactly one POST means: no second attempt, and an error.
+    let mut s = Stats::new();
+    {
+        let mut jobs: Vec<(ClientKind, bool, usize)> = vec![];
+        for kind in kinds {
+            for late in [false, true] {
+                for pk in [0usize, 2] {
+                    jobs.push((kind, late, pk));
+                }
+            }
+        }
+        let good = r1::encode(&resps[0].1);
+        for p in par_range(jobs.len(), jobs.len() as u64, 1, || (Stats::new(), runtime()), |acc, i| {
+            let (st, rt) = acc;
+            let (kind, late, pk) = jobs[i as usize];
+            let case = json!({"section": "reset", "client": kind.name(), "reset": if late { "after the whole request" } else { "after 64 request bytes" }, "payload": pk});
+            st.evaluations += 1;
+            st.traces += 1;
+            st.transitions += 1;
+            st.states.insert(fnv(case.to_string().as_bytes()));
+            st.nontrivial.insert(fnv(case.to_string().as_bytes()));
+            let l = Arc::new(Listener::bind());
+            let port = l.port;
+            let l2 = l.clone();
+            let done = Arc::new(std::sync::atomic::AtomicBool::new(false));
+            let done2 = done.clone();
+            let good2 = good.clone();
+            let server = std::thread::spawn(move || -> usize {
+                // first connection: reset; then serve whatever else arrives until the client has returned
+                let mut later = 0usize;
+                if let Some(mut c) = l2.accept_until(Duration::from_secs(20), &done2) {
+                    if late {
+                        let _ = read_request(&mut c, Instant::now() + Duration::from_secs(20));
+                        reset(c);
+                    } else {
+                        read_some_then_reset(c, 64);
+                    }
+                    let t0 = Instant::now();
+                    loop {
+                        if let Some(c2) = l2.accept(Duration::from_millis(20)) {
+                            later += 1;
+                            let _ = serve_plain(c2, &Script::ok(good2.clone()));
+                        } else if done2.load(std::sync::atomic::Ordering::SeqCst) || t0.elapsed() > Duration::from_secs(30) {
+                            break;
+                        }
+                    }
+                }
+                later
+            });
+            let pay = payload(pk, seed);
+            let uri = format!("http://127.0.0.1:{}/ipp", port);
+            let result = send(kind, rt, &uri, &Config::default(), with_payload(&reqs[1], &pay, 1));
+            // give a late second attempt the chance to show up
+            std::thread::sleep(Duration::from_millis(50));
+            done.store(true, std::sync::atomic::Ordering::SeqCst);
+            let later = server.join().unwrap_or(0);
+            if later > 0 {
+                st.outcome("second-attempt");
+                st.violate(format!("{}:second-post-after-reset", kind.name()), format!("{}: {} further connection(s) after the reset - a request is sent exactly once (its payload is a one-shot stream)", case, later), case.clone());
+            } else if result.is_ok() {
+                st.outcome("success-after-reset");
+                st.violate(format!("{}:success-after-reset", kind.name()), format!("{}: send() returned Ok although its only connection was reset", case), case.clone());
+            } else {
+                st.outcome("reset-is-error");
+            }
+            st.sample(1, || case.clone());
+        }) {
+            s.merge(p.0);
+        }
+    }
+    rep.section("connection-resets", s);
     eprintln!("  elapsed {:?}", rep.start.elapsed());
 
     // ---------------- (4a) huge bodies, both directions: streamed from a pattern generator and verified on the fly.
